@@ -145,6 +145,19 @@ def ckksEncrypt (l : Level) (m : EncMode) (plain : RnsPoly) : R Ct := do
   let c0 ← rnsAdd l (z.polys.getD 0 #[]) plain
   pure { z with polys := z.polys.setIfInBounds 0 c0 }
 
+/-! ### key generation (src/key.rs `KeyGenerator::generate_sk`, `generate_pk` / `create_public_key`) -/
+
+/-- `KeyGenerator::generate_sk` at the key level `l`: `sample::ternary` writes the secret in the samplers' RNS encoding, `ntt_p`
+    transforms it; the result is the stored secret key (= `skNtt l s` for the signed coefficients s: `genSecretKey_eq_skNtt`) -/
+def genSecretKey (l : Level) (tern : RnsPoly) : RnsPoly := rnsNtt l tern
+
+/-- `KeyGenerator::create_public_key(save_seed)` = `generate_pk` = `encrypt_zero::symmetric(secret_key, key_parms_id,
+    is_ntt_form = true, save_seed, ..)` at the key level `l` — for every scheme the public key is made in NTT form; `a`, `e` are the
+    polynomials the call draws (`uniform` on the public-seed generator, `centered_binomial`).  With a saved seed the stored key carries
+    the seed in place of polynomial 1; the value here has what `expand_seed` regenerates (as for `encryptZeroSym`). -/
+def genPublicKey (l : Level) (sk : Array Int) (a e : RnsPoly) (saveSeed : Bool) : R Ct :=
+  encryptZeroSym l sk a e true saveSeed
+
 /-! ### seeded ciphertexts -/
 
 /-- a seed-compressed ciphertext: c0 and, in place of c1, the flag word + the 64-byte seed -/
